@@ -57,16 +57,17 @@ var sharedOps = []string{"ParseURL", "UnmarshalDocument", "UnmarshalPartial", "N
 // sharedSchema: a struct-backed type and two soft types, coherent.
 func sharedSchema() *jsonapi.Schema {
 	s := &jsonapi.Schema{}
+	// the types are registered in an order that is not the alphabetical one
+	must(s.AddType(*softType("t3", defMap{"c": {Kind: "attr", K: "bytes", Null: true}}, kindMap{})))
 	typ, err := jsonapi.BuildType(reflect.New(structType("t1", docFields["t1"], kindMap{})).Interface())
 	must(err)
 	must(s.AddType(typ))
+	// a type without any field: both maps nil
+	must(s.AddType(jsonapi.Type{Name: "t5"}))
 	must(s.AddType(*softType("t2", docFields["t2"], kindMap{})))
-	must(s.AddType(*softType("t3", defMap{"c": {Kind: "attr", K: "bytes", Null: true}}, kindMap{})))
 	// a type declared the short way: AddType(Type{Name}) then AddAttr leaves its Rels map nil
 	must(s.AddType(jsonapi.Type{Name: "t4"}))
 	must(s.AddAttr("t4", jsonapi.Attr{Name: "d", Type: jsonapi.AttrTypeString}))
-	// and one without any field: both maps nil
-	must(s.AddType(jsonapi.Type{Name: "t5"}))
 	return s
 }
 
